@@ -128,12 +128,18 @@ pub fn parse_bytes(v: &Value, key: &str) -> Result<Vec<u8>, String> {
     parse_seq(v, key)
 }
 
-/// Set for the quick tier: the (expensive) consumption-mode sweeps then run only on inputs up to
-/// a size limit chosen per call site; the thorough tier and replays run them everywhere.
-pub static MODES_QUICK: std::sync::atomic::AtomicBool = std::sync::atomic::AtomicBool::new(false);
+/// Tier of the running exploration (0 = replay: no limit, 1 = quick, 2 = thorough): the
+/// (expensive) consumption-mode sweeps run only on inputs up to a size limit chosen per call
+/// site - `quick_limit` in the quick tier, `quick_limit + 3` in the thorough tier; replays run
+/// them unconditionally, so a recorded case always reproduces.
+pub static MODES_TIER: std::sync::atomic::AtomicU8 = std::sync::atomic::AtomicU8::new(0);
 
 pub fn modes_wanted(size: usize, quick_limit: usize) -> bool {
-    !MODES_QUICK.load(std::sync::atomic::Ordering::Relaxed) || size <= quick_limit
+    match MODES_TIER.load(std::sync::atomic::Ordering::Relaxed) {
+        0 => true,
+        1 => size <= quick_limit,
+        _ => size <= quick_limit + 3,
+    }
 }
 
 /// Every way of consuming an iterator has to give the items a plain `next()` loop gives.
